@@ -307,6 +307,29 @@ def r16_34(ck: Check) -> None:
 
 def r16_5(ck: Check) -> None:
     from .c12 import exact_guard
+    fi0 = ck.repo.func(CONS + "validate_sashimi_range")
+    a0 = fi0.node.args      # type: ignore[attr-defined]
+    if a0.vararg is not None and not a0.args:
+        # the validator takes all amounts at once: decided by evaluating it (constant evaluator, explicit sublanguage) on the corner
+        # tuples - every amount must be in (0, max], whatever the others are
+        from ..engine.repo import FoldRaised
+        body = func_body(fi0)
+        mx = MAX_SUPPLY
+        cases = [((1,), False), ((mx,), False), ((0,), True), ((mx + 1,), True), ((1, mx + 1), True), ((mx + 1, 1), True), ((1, 0, 1), True),
+                 ((1, mx, 5), False), ((-1, 1), True)]
+        construct = "validate_sashimi_range(*amounts): refuses exactly when some amount is outside (0, %s]" % format(mx, ",")
+        for vals, want_raise in cases:
+            try:
+                ck.repo.eval_statements(fi0, body, {a0.vararg.arg: vals})
+                raised = False
+            except FoldRaised:
+                raised = True
+            if raised != want_raise:
+                ck.violated("R16.5", construct, "for the amounts %s it %s — the limit is then not a limit on ANY amount (a transaction with one amount "
+                            "in range carries the others through)" % (vals, "raises" if raised else "does not raise"), fi0.loc)
+                return
+        ck.ok("R16.5", construct, "%d corner tuples evaluated" % len(cases), fi0.loc)
+        return
     s = ck.summ(CONS + "validate_sashimi_range", 0)
     require_guard(ck, "R16.5", s, Spec(s, ("v",)), "v > %d" % MAX_SUPPLY, "the validator's amount limit is the documented maximum supply")
     exact_guard(ck, "R16.5", s, Spec(s, ("v",)), "v <= 0 or v > %d" % MAX_SUPPLY,
